@@ -23,7 +23,9 @@ class Router(BaseRouter[WSGIApp]):
     def __call__(
         self, environ: Environ, start_response: StartResponse
     ) -> Iterable[bytes]:
-        result = self.search(environ.get("PATH_INFO", ""))
+        # PATH_INFO is the Latin-1 decoding of the (UTF-8) path bytes, PEP 3333
+        path = environ.get("PATH_INFO", "").encode("latin-1").decode("utf-8", "replace")
+        result = self.search(path)
         if result is None:
             response: WSGIApp = Response(404)
         else:
@@ -51,14 +53,24 @@ class Subpaths(BaseSubpaths[WSGIApp]):
     def __call__(
         self, environ: Environ, start_response: StartResponse
     ) -> Iterable[bytes]:
-        path = environ.get("PATH_INFO", "")
+        # PATH_INFO is the Latin-1 decoding of the (UTF-8) path bytes, PEP 3333;
+        # surrogateescape keeps every byte so that the remainder can be written back
+        path = (
+            environ.get("PATH_INFO", "")
+            .encode("latin-1")
+            .decode("utf-8", "surrogateescape")
+        )
         result = self.search(path)
         if result is None:
             response: WSGIApp = Response(404)
         else:
             prefix, response = result
-            environ["SCRIPT_NAME"] = environ.get("SCRIPT_NAME", "") + prefix
-            environ["PATH_INFO"] = path[len(prefix) :]
+            environ["SCRIPT_NAME"] = environ.get("SCRIPT_NAME", "") + prefix.encode(
+                "utf-8"
+            ).decode("latin-1")
+            environ["PATH_INFO"] = (
+                path[len(prefix) :].encode("utf-8", "surrogateescape").decode("latin-1")
+            )
         yield from response(environ, start_response)
 
 
